@@ -88,3 +88,67 @@ func VerifC13_AsynchronousFrontEnd() {
 	}
 	verif.Assume(l.Close() == nil && out.closed && errs.closed) // precondition of this harness ("close"), not a clause of the property
 }
+
+// vBufferingMember is a member that hands its messages to its sink when it is
+// closed (as a buffered or asynchronous logger does), and whose Close may fail.
+type vBufferingMember struct {
+	pending  []string
+	sink     []string
+	closeErr error
+}
+
+func (b *vBufferingMember) Check() error                        { return nil }
+func (b *vBufferingMember) SetLogSource(source string) error    { return nil }
+func (b *vBufferingMember) SetLoggerSource(source string) error { return nil }
+func (b *vBufferingMember) Log(output ...interface{}) {
+	for _, o := range output {
+		s, _ := o.(string)
+		b.pending = append(b.pending, s)
+	}
+}
+func (b *vBufferingMember) LogError(err ...interface{}) { b.Log(err...) }
+func (b *vBufferingMember) Close() error {
+	if b.closeErr != nil {
+		return b.closeErr
+	}
+	b.sink = append(b.sink, b.pending...)
+	b.pending = nil
+	return nil
+}
+
+// VerifC13_CloseFlushesEveryMember: members that only deliver on Close lose
+// nothing when the composite is closed, whichever other member fails to close.
+func VerifC13_CloseFlushesEveryMember() {
+	n := verif.Len("members", 2, 3)
+	failing := verif.Choice("failingMember", 4) // 3: none (also when n == 2 and the choice is 2)
+	var members []*vBufferingMember
+	var list []Loggers
+	for i := 0; i < n; i++ {
+		m := &vBufferingMember{}
+		if i == failing {
+			m.closeErr = errors.New("verif: member cannot be closed")
+		}
+		members = append(members, m)
+		list = append(list, m)
+	}
+	combined, err := NewCombinedLoggers(list...)
+	verif.Assume(err == nil) // precondition of this harness ("constructor"), not a clause of the property
+	combined.Log("ab")
+	combined.LogError("cd")
+	cerr := combined.Close()
+	verif.Observe("close_failed", cerr != nil)
+	for i, m := range members {
+		if i == failing {
+			continue
+		}
+		count := func(s string) (k int) {
+			for _, e := range m.sink {
+				if e == s {
+					k++
+				}
+			}
+			return
+		}
+		verif.Assert("every_member_gets_every_message_once", len(m.sink) == 2 && count("ab") == 1 && count("cd") == 1)
+	}
+}
